@@ -581,7 +581,8 @@ func genParts(r *Rng, np, kind int) []PartSpec {
 			}
 		}
 		chunks = append(chunks, cc)
-		parts[i] = PartSpec{Tags: fmt.Sprintf("p=p%d,g=y", i), Chunks: chunks}
+		// half of the partitions are written chunk by chunk: exact index hulls, RANGE rejects whole chunks
+		parts[i] = PartSpec{Tags: fmt.Sprintf("p=p%d,g=y", i), Chunks: chunks, Split: r.Chance(1, 2)}
 	}
 	return parts
 }
@@ -603,6 +604,50 @@ func tsBounds(parts []PartSpec) (int64, int64) {
 	return lo, hi
 }
 
+// chunkGap picks a chunk edge of a partition with more than one chunk and returns a timestamp between the newest
+// event before the edge and the oldest event of the next chunk (the newest event itself when there is no room).
+// Preferred: an edge of a partition written chunk by chunk (exact hulls: the chunks behind the edge are rejected) whose
+// next chunk is shorter than the chunk before it -- a backward walk that took its start index from the rejected chunk
+// would enter the previous chunk in the middle.
+func chunkGap(r *Rng, parts []PartSpec) (int64, bool) {
+	type edge struct{ p, e int }
+	var pref, all []edge
+	for i, p := range parts {
+		for e := 1; e < len(p.Chunks); e++ {
+			all = append(all, edge{i, e})
+			if p.Split && len(p.Chunks[e]) < len(p.Chunks[e-1]) {
+				pref = append(pref, edge{i, e})
+			}
+		}
+	}
+	if len(all) == 0 {
+		return 0, false
+	}
+	pick := all[r.Intn(len(all))]
+	if len(pref) > 0 && r.Chance(3, 4) {
+		pick = pref[r.Intn(len(pref))]
+	}
+	p, e := parts[pick.p], pick.e
+	mx := p.Chunks[e-1][0].Ts
+	for _, c := range p.Chunks[:e] {
+		for _, x := range c {
+			if x.Ts > mx {
+				mx = x.Ts
+			}
+		}
+	}
+	mn := p.Chunks[e][0].Ts
+	for _, x := range p.Chunks[e] {
+		if x.Ts < mn {
+			mn = x.Ts
+		}
+	}
+	if mn > mx+1 {
+		return mx + (mn-mx)/2, true
+	}
+	return mx, true
+}
+
 func genVariants(r *Rng, parts []PartSpec) []Variant {
 	lo, hi := tsBounds(parts)
 	rng := func() *[2]int64 {
@@ -613,6 +658,22 @@ func genVariants(r *Rng, parts []PartSpec) []Variant {
 		}
 		if r.Chance(1, 4) {
 			b = hi + 5
+		}
+		// every second range ends (and every fourth one also starts) in the gap between two chunks of a partition:
+		// the chunks behind it are wholly out of range, the chunk before it has no upper index limit, so a backward
+		// move from the tail walks over rejected chunks (getPosBackward) and must enter the chunk at its end
+		if r.Chance(1, 2) {
+			if g, ok := chunkGap(r, parts); ok {
+				b = g
+				if a > b || r.Chance(1, 2) {
+					a = lo - 5
+				}
+				if r.Chance(1, 4) {
+					if g2, ok := chunkGap(r, parts); ok && g2 < b {
+						a = g2 + 1
+					}
+				}
+			}
 		}
 		return &[2]int64{a, b}
 	}
@@ -782,6 +843,13 @@ func run(c *Ctx) error {
 		{witnessParts(false), Variant{Range: &[2]int64{0, 100}}, "tail", -7},
 		{witnessParts(true), Variant{}, "tail", -1},
 		{headWitnessParts(), Variant{Where: true}, "head", 1},
+		// RANGE that rejects whole chunks (written chunk by chunk, exact hulls): chunks [6 6 2], the range ends between
+		// the second and the third; tail -1 must enter the second chunk at its end (getPosBackward); the range starts
+		// between the first and the second: head +1 (getPosForward)
+		{rejectWitnessParts(), Variant{Range: &[2]int64{0, 215}}, "tail", -1},
+		{rejectWitnessParts(), Variant{Range: &[2]int64{0, 215}}, "tail", -7},
+		{rejectWitnessParts(), Variant{Range: &[2]int64{155, 215}}, "tail", -2},
+		{rejectWitnessParts(), Variant{Range: &[2]int64{155, 1000}}, "head", 1},
 	}
 	for _, w := range wit {
 		st, err := openStore(w.parts)
@@ -844,6 +912,21 @@ func headWitnessParts() []PartSpec {
 	return []PartSpec{
 		{Tags: "p=p0,g=y", Chunks: [][]Ev{{{Ts: 1, Id: 1, A: false}, {Ts: 2, Id: 2, A: true}, {Ts: 3, Id: 3, A: true}}}},
 	}
+}
+
+// rejectWitnessParts: one partition of 14 events (timestamps 100, 110, .. 230) in chunks [6 6 2], one Write per chunk
+func rejectWitnessParts() []PartSpec {
+	var chunks [][]Ev
+	k := 0
+	for _, n := range []int{6, 6, 2} {
+		var c []Ev
+		for i := 0; i < n; i++ {
+			c = append(c, Ev{Ts: int64(100 + 10*k), Id: k + 1, A: true})
+			k++
+		}
+		chunks = append(chunks, c)
+	}
+	return []PartSpec{{Tags: "p=p0,g=y", Chunks: chunks, Split: true}}
 }
 
 // addCase registers a case; a case on which the oracle reports a failure is registered a second time without the
